@@ -12,7 +12,7 @@ import threading
 from hypothesis import strategies as st
 
 from vf import lab, progs, values, faults
-from vf.core import Prop, Outcome
+from vf.core import Prop, Outcome, fd
 from vf.props.C03 import resolve_tps
 
 from deep.api.tracepoint.trigger import build_trigger, Trigger, FunctionLocation, LineLocation, LocationAction, \
@@ -21,6 +21,7 @@ from deep.api.tracepoint.tracepoint_config import MetricDefinition, LabelExpress
 from deep.api.tracepoint.constants import STAGE, METHOD_CAPTURE, LINE_CAPTURE
 
 INJ = faults.INJECTOR
+ITERATING_KINDS = {'gen', 'map', 'zip', 'range_iter', 'set_iter', 'list_iter', 'list_reviter', 'mailbox', 'dict_keys'}
 INJ.install()
 
 EXPRS = ['n', 'n + 1', 'a', 'h1', 'str(h1)', 'len(h2)', 'undefined_name', '1/0', 'n +', 'h1.nope', 'raise_base()',
@@ -50,34 +51,44 @@ class C01(Prop):
                    'near-recursion-limit programs are not generated']
     quick_examples = 250
     thorough_examples = 1500
-    floors = {'tp_reached': 0.5, 'fault_fired': 0.25, 'hostile_in_scope': 0.15, 'plugin_fault': 0.1}
+    floors = {'tp_reached': 0.5, 'fault_fired': 0.25, 'hostile_in_scope': 0.15, 'plugin_fault': 0.1,
+              'plugin_fault_fired': 0.05}
 
     def strategy(self, tier):
         where_line = st.tuples(st.just('stmt'), st.integers(0, 60)).map(list)
         where_fn = st.tuples(st.just('func'), st.integers(0, 5)).map(list)
         expr = st.sampled_from(EXPRS)
         tp = st.one_of(
-            st.fixed_dictionaries({'kind': st.just('line'), 'where': where_line,
+            fd({'kind': st.just('line'), 'where': where_line,
                                    'action': st.sampled_from(['snapshot', 'log', 'metric', 'span', 'snapshot+log',
                                                               'capture']),
                                    'cond': st.sampled_from(CONDS), 'exprs': st.lists(expr, max_size=3),
                                    'frame_type': st.sampled_from(['single_frame', 'all_frame'])}),
-            st.fixed_dictionaries({'kind': st.just('method'), 'where': where_fn,
+            fd({'kind': st.just('method'), 'where': where_fn,
                                    'action': st.sampled_from(['snapshot', 'span', 'capture', 'log', 'noname']),
                                    'cond': st.sampled_from(CONDS), 'exprs': st.lists(expr, max_size=2),
                                    'frame_type': st.sampled_from(['single_frame', 'all_frame'])}))
         plugin_fault = st.one_of(st.none(), st.tuples(
             st.sampled_from(['log_tracepoint', 'decorate', 'create_span', 'close', 'counter']),
-            st.sampled_from(['E', 'E', 'B']), st.sampled_from(['all', 'first', 'second'])).map(list))
+            st.sampled_from(['E', 'B', 'B']), st.sampled_from(['all', 'all', 'first', 'second'])).map(list))
+        plugin_fault = st.one_of(plugin_fault, plugin_fault.filter(lambda x: x is not None))
         fault = st.tuples(st.integers(0, 400), st.sampled_from(['first', 'last', 'mid', 'second'])).map(list)
-        return st.fixed_dictionaries({
+        def align(r):
+            # a plugin fault is only reachable if a tracepoint of the matching kind exists: force one
+            pf = r['plugin_fault']
+            if pf and r['tps']:
+                want = {'log_tracepoint': 'log', 'decorate': 'snapshot', 'create_span': 'span', 'close': 'span',
+                        'counter': 'metric'}[pf[0]]
+                r = dict(r, tps=[dict(r['tps'][0], action=want, cond=None, kind='line', where=['stmt', 0])] + r['tps'][1:])
+            return r
+        return fd({
             'prog': progs.program_recipes(n_values=5, hold_bias=2),
             'values': values.value_recipes(ALL_KINDS, min_nodes=5, max_nodes=8, max_items=3),
             'tps': st.lists(tp, min_size=1, max_size=5),
             'plugin_fault': plugin_fault,
             'faults': st.lists(st.lists(fault, min_size=1, max_size=2), min_size=1, max_size=2),
             'src': st.booleans(),
-        })
+        }).map(align)
 
     # -------------------------------------------------------------------------------------------------
     def build_triggers(self, recipe, rendered):
@@ -158,6 +169,15 @@ class C01(Prop):
             res = run_with_globals(recipe['prog'], rendered, tracer, vals, recipe['src'])
         finally:
             INJ.disarm()
+        # what is left in every iterator / draining collection the program held is part of its final data
+        rest = []
+        for nd, v in zip(recipe['values']['nodes'], vals):
+            if nd['k'] in ITERATING_KINDS:
+                try:
+                    rest.append([nd['k'], progs.canon_obs(list(v))])
+                except BaseException as e:      # noqa
+                    rest.append([nd['k'], type(e).__name__])
+        res.log.append(['final-iterators', rest])
         return res, handler, plugs, push
 
 
@@ -217,6 +237,8 @@ def run_case(self, recipe):
                        for k in counts))
     errors_logged = bool(lab.LOGS.errors())
     plugin_fired = any(p.fired for p in plugs)
+    if plugin_fired:
+        out.cls('plugin_fault_fired')
     if reached:
         out.cls('tp_reached')
     ok = judge(res, handler, 'no injected fault', [])
